@@ -345,7 +345,7 @@ func generate() {
 	// 2. exhaustive small shapes, smallest first
 	maxSize := 4
 	if thorough {
-		maxSize = 5
+		maxSize = 6
 	}
 	for size := 0; size <= maxSize; size++ {
 		smallTables(size, func(names []string) {
@@ -361,7 +361,7 @@ func generate() {
 	// 3. random tables up to MAX_BOARD
 	nRand := 25
 	if thorough {
-		nRand = 400
+		nRand = 1500
 	}
 	for i := 0; i < nRand; i++ {
 		n := 5 + r.Intn(maxBoard-4)
